@@ -926,6 +926,266 @@ Section obs.
         * intros (j & _ & Hsel). apply cred_sel_Some in Hsel as [Hj Hin]. simpl in *. by subst j.
     - rewrite map_fmap, merge_sort_Permutation, <-map_fmap. done.
   Qed.
+
+  Lemma cred_sel_in x i c :
+    NoDup (map fst (t_creds x)) → (i, c) ∈ t_creds x → cred_sel (t_creds x) i = Some (i, c).
+  Proof.
+    intros Hnd Hin. unfold cred_sel.
+    rewrite (elem_of_list_to_map_1 (t_creds x) i c); [done| |done]. by rewrite <-map_fmap.
+  Qed.
+
+  Lemma credited_amount_Some op chg :
+    is_credited U op chg → credited_amount U op = Some (amount_of U op).
+  Proof.
+    unfold is_credited, creds_of, credited_amount, amount_of.
+    destruct (U !! op.1) as [x|]; [|by intros H; inversion H]. intros Hin.
+    rewrite (proj2 (existsb_elem_of _ _)); [done|].
+    exists (op.2, chg). split; [done|]. by apply bool_decide_eq_true.
+  Qed.
+
+  Lemma credited_amount_inv op a :
+    credited_amount U op = Some a → ∃ chg, is_credited U op chg.
+  Proof.
+    unfold is_credited, creds_of, credited_amount.
+    destruct (U !! op.1) as [x|]; [|done].
+    destruct (existsb _ _) eqn:He; [|done]. intros _.
+    apply existsb_elem_of in He as ([i c] & Hin & Heq). apply bool_decide_eq_true in Heq.
+    simpl in Heq. subst i. by exists c.
+  Qed.
+
+  Lemma mined_spent_eq t h bh i cv :
+    credits s !! (t, h, bh, i) = Some cv →
+    c_spent cv || bool_decide (is_Some (unmined_inputs s !! (t, i))) = spent_by_known U F (t, i).
+  Proof.
+    intros Hcv. destruct (inv_credits_sound U s F HI t h bh i cv Hcv) as (_ & _ & _ & Hsp).
+    apply eq_true_iff_eq.
+    rewrite orb_true_iff, bool_decide_eq_true, unmined_inputs_some, spent_by_known_true, Hsp. done.
+  Qed.
+
+  Lemma mined_credits_eq t x h bh :
+    U !! t = Some x → f_conf F !! t = Some (h, bh) →
+    omap (λ i, match credits s !! (t, h, bh, i) with
+               | None => None
+               | Some cv =>
+                 Some {| cr_index := i; cr_amt := c_amt cv;
+                         cr_spent := c_spent cv || bool_decide (is_Some (unmined_inputs s !! (t, i)));
+                         cr_change := c_change cv |}
+               end) (indices (t_outs x)) =
+    map (λ ic : N * bool, {| cr_index := ic.1; cr_amt := out_amount x ic.1;
+                             cr_spent := spent_by_known U F (t, ic.1); cr_change := ic.2 |})
+        (merge_sort N_le_dec_rel (t_creds x)).
+  Proof.
+    intros Hx Hc. pose proof (wf_universe_lookup _ _ _ Hwf Hx) as Hwx.
+    rewrite (sorted_creds t x Hx), map_fmap, list_fmap_omap. apply omap_ext_elem. intros i _.
+    destruct (cred_sel (t_creds x) i) as [[i' c]|] eqn:Hsel.
+    - apply cred_sel_Some in Hsel as [Hi Hin]. simpl in Hi, Hin. subst i'.
+      assert (is_credited U (t, i) c) as Hcr.
+      { unfold is_credited. simpl. by rewrite (creds_of_lookup _ _ Hx). }
+      destruct (inv_credits_complete U s F HI t h bh i c Hc Hcr) as [cv Hcv]. rewrite Hcv.
+      destruct (inv_credits_sound U s F HI t h bh i cv Hcv) as (_ & Hcr' & Ha & _).
+      rewrite (credited_change_unique _ _ _ Hcr' Hcr), Ha, (mined_spent_eq _ _ _ _ _ Hcv).
+      rewrite (amount_of_lookup (t, i) x Hx). done.
+    - destruct (credits s !! (t, h, bh, i)) as [cv|] eqn:Hcv; [|done]. exfalso.
+      destruct (inv_credits_sound U s F HI t h bh i cv Hcv) as (_ & Hcr' & _).
+      unfold is_credited in Hcr'. simpl in Hcr'. rewrite (creds_of_lookup _ _ Hx) in Hcr'.
+      rewrite (cred_sel_in x i _ (wt_creds_nodup _ _ Hwx) Hcr') in Hsel. done.
+  Qed.
+
+  Lemma unmined_credits_eq t x :
+    U !! t = Some x → t ∈ f_unconf F →
+    omap (λ i, match unmined_credits s !! (t, i) with
+               | None => None
+               | Some (amt, chg) =>
+                 Some {| cr_index := i; cr_amt := amt;
+                         cr_spent := bool_decide (is_Some (unmined_inputs s !! (t, i)));
+                         cr_change := chg |}
+               end) (indices (t_outs x)) =
+    map (λ ic : N * bool, {| cr_index := ic.1; cr_amt := out_amount x ic.1;
+                             cr_spent := spent_by_known U F (t, ic.1); cr_change := ic.2 |})
+        (merge_sort N_le_dec_rel (t_creds x)).
+  Proof.
+    intros Hx Hu. pose proof (wf_universe_lookup _ _ _ Hwf Hx) as Hwx.
+    rewrite (sorted_creds t x Hx), map_fmap, list_fmap_omap. apply omap_ext_elem. intros i _.
+    destruct (cred_sel (t_creds x) i) as [[i' c]|] eqn:Hsel.
+    - apply cred_sel_Some in Hsel as [Hi Hin]. simpl in Hi, Hin. subst i'.
+      assert (is_credited U (t, i) c) as Hcr.
+      { unfold is_credited. simpl. by rewrite (creds_of_lookup _ _ Hx). }
+      rewrite (proj2 (inv_unmined_credits U s F HI (t, i) (amount_of U (t, i)) c)) by done.
+      simpl. rewrite (amount_of_lookup (t, i) x Hx). simpl. f_equal. f_equal.
+      apply eq_true_iff_eq.
+      rewrite bool_decide_eq_true, unmined_inputs_some, spent_by_known_true.
+      pose proof (unconf_no_conf_spender (t, i) Hu). tauto.
+    - destruct (unmined_credits s !! (t, i)) as [[a chg]|] eqn:Hmc; [|done]. exfalso.
+      apply (inv_unmined_credits U s F HI) in Hmc as (_ & Hcr' & _).
+      unfold is_credited in Hcr'. simpl in Hcr'. rewrite (creds_of_lookup _ _ Hx) in Hcr'.
+      rewrite (cred_sel_in x i _ (wt_creds_nodup _ _ Hwx) Hcr') in Hsel. done.
+  Qed.
+
+  Definition spec_debit_fn (ii : N * (N * N)) : option (N * Z) :=
+    let '(i, op) := ii in
+    if known F op.1 then
+      match credited_amount U op with
+      | Some a => Some (i, a)
+      | None => None
+      end
+    else None.
+
+  Lemma mined_debits_eq t x h bh :
+    U !! t = Some x → f_conf F !! t = Some (h, bh) →
+    omap (λ i, match debits s !! (t, h, bh, i) with
+               | None => None
+               | Some (amt, _) => Some (i, amt)
+               end) (indices (t_ins x)) =
+    omap spec_debit_fn (zip (indices (t_ins x)) (t_ins x)).
+  Proof.
+    intros Hx Hc. apply omap_indices_zip. intros n op Hn. unfold spec_debit_fn.
+    assert (input_at U t (N.of_nat n) = Some op) as Hat.
+    { unfold input_at, tx_ins. by rewrite Hx, Nat2N.id. }
+    assert (op ∈ tx_ins U t) as Hop.
+    { unfold tx_ins. rewrite Hx. by eapply elem_of_list_lookup_2. }
+    destruct (debits s !! (t, h, bh, N.of_nat n)) as [[amt ck]|] eqn:Hd.
+    - destruct (inv_debits_sound U s F HI _ _ _ _ _ _ Hd)
+        as (_ & op' & ph & pbh & Hat' & [chg Hcr] & Hcp & _ & ->).
+      rewrite Hat in Hat'. injection Hat' as <-.
+      rewrite (proj2 (known_true op.1)) by (left; by eexists).
+      by rewrite (credited_amount_Some _ _ Hcr).
+    - destruct (known F op.1) eqn:Hk; [|done].
+      destruct (credited_amount U op) as [a|] eqn:Hca; [|done]. exfalso.
+      apply credited_amount_inv in Hca as [chg Hcr]. apply known_true in Hk.
+      destruct (fw_parents_confirmed U F (inv_wf U s F HI) t h bh op Hc Hop Hk)
+        as (ph & pbh & Hcp & _).
+      destruct (inv_debits_complete U s F HI t h bh (N.of_nat n) op ph pbh chg Hc Hat Hcr Hcp)
+        as [v Hv]. congruence.
+  Qed.
+
+  Lemma unmined_debits_eq t x :
+    U !! t = Some x → t ∈ f_unconf F →
+    omap (λ ii : N * (N * N),
+            let '(i, op) := ii in
+            match cred_key_of_unspent s op with
+            | Some ck => Some (i, match credits s !! ck with Some cv => c_amt cv | None => 0 end)
+            | None =>
+              match unmined_credits s !! op with
+              | Some (amt, _) => Some (i, amt)
+              | None => None
+              end
+            end) (zip (indices (t_ins x)) (t_ins x)) =
+    omap spec_debit_fn (zip (indices (t_ins x)) (t_ins x)).
+  Proof.
+    intros Hx Hu. apply omap_ext_elem. intros [i op] Hin. unfold spec_debit_fn.
+    assert (op ∈ tx_ins U t) as Hop.
+    { unfold tx_ins. rewrite Hx. by eapply elem_of_zip_r. }
+    unfold cred_key_of_unspent.
+    destruct (unspent s !! op) as [[h' bh']|] eqn:Hus.
+    - destruct (unspent_credit _ _ _ Hus) as (cv & Hcv & Ha & _). rewrite Hcv, Ha.
+      apply (inv_unspent U s F HI) in Hus as (Hcp & [chg Hcr] & _).
+      rewrite (proj2 (known_true op.1)) by (left; by eexists).
+      by rewrite (credited_amount_Some _ _ Hcr).
+    - destruct (unmined_credits s !! op) as [[a chg]|] eqn:Hmc.
+      + apply (inv_unmined_credits U s F HI) in Hmc as (Hup & Hcr & ->).
+        rewrite (proj2 (known_true op.1)) by by right.
+        by rewrite (credited_amount_Some _ _ Hcr).
+      + destruct (known F op.1) eqn:Hk; [|done].
+        destruct (credited_amount U op) as [a|] eqn:Hca; [|done]. exfalso.
+        apply credited_amount_inv in Hca as [chg Hcr]. apply known_true in Hk as [[[h' bh'] Hcp]|Hup].
+        * assert (unspent s !! op = Some (h', bh')) as Hus'; [|congruence].
+          apply (inv_unspent U s F HI). split_and!; [done|by eexists|].
+          intros [m Hm]. eapply (fw_no_unconf_conflict U F (inv_wf U s F HI) op m t); [done|].
+          by split.
+        * assert (unmined_credits s !! op = Some (amount_of U op, chg)) as Hmc'; [|congruence].
+          by apply (inv_unmined_credits U s F HI).
+  Qed.
+
+  Definition spec_details_of (t : N) (x : tx) : details :=
+    {| d_block := f_conf F !! t;
+       d_credits := map (λ ic : N * bool,
+                       {| cr_index := ic.1; cr_amt := out_amount x ic.1;
+                          cr_spent := spent_by_known U F (t, ic.1); cr_change := ic.2 |})
+                     (merge_sort N_le_dec_rel (t_creds x));
+       d_debits := omap spec_debit_fn (zip (indices (t_ins x)) (t_ins x)) |}.
+
+  Lemma spec_details_known t x :
+    known F t = true → U !! t = Some x → spec_details U F t = Some (spec_details_of t x).
+  Proof. intros Hk Hx. unfold spec_details. rewrite Hk, Hx. done. Qed.
+
+  Lemma spec_details_unknown t : known F t = false → spec_details U F t = None.
+  Proof. intros Hk. unfold spec_details. by rewrite Hk. Qed.
+
+  Lemma unmined_details_eq t x :
+    U !! t = Some x → t ∈ f_unconf F → unmined_details U s t = spec_details_of t x.
+  Proof.
+    intros Hx Hu. unfold unmined_details, spec_details_of. rewrite Hx, (unconf_not_conf _ Hu).
+    f_equal.
+    - by apply unmined_credits_eq.
+    - by apply (unmined_debits_eq t).
+  Qed.
+
+  Lemma mined_details_eq t x h bh :
+    U !! t = Some x → f_conf F !! t = Some (h, bh) →
+    mined_details U s (t, h, bh) = spec_details_of t x.
+  Proof.
+    intros Hx Hc. unfold mined_details, spec_details_of. rewrite Hx, Hc.
+    f_equal.
+    - by apply mined_credits_eq.
+    - by apply mined_debits_eq.
+  Qed.
+
+  Lemma elem_of_mined_keys t k :
+    k ∈ mined_keys_of t s ↔ k.1.1 = t ∧ f_conf F !! t = Some (k.1.2, k.2).
+  Proof.
+    unfold mined_keys_of. rewrite elem_of_list_filter, map_fmap, elem_of_list_fmap.
+    destruct k as [[t' h] bh]. simpl. split.
+    - intros [-> ([k []] & Heq & Hin)]. simpl in Heq. subst k.
+      apply elem_of_map_to_list in Hin. split; [done|].
+      apply (inv_txrecs U s F HI). by eexists.
+    - intros [-> Hc]. split; [done|]. apply (inv_txrecs U s F HI) in Hc as [[] Hr].
+      exists ((t, h, bh), tt). split; [done|]. by apply elem_of_map_to_list.
+  Qed.
+
+  Lemma mined_keys_conf t h bh : f_conf F !! t = Some (h, bh) → mined_keys_of t s = [(t, h, bh)].
+  Proof.
+    intros Hc. apply NoDup_singleton_eq.
+    - unfold mined_keys_of. apply NoDup_filter. rewrite map_fmap. apply NoDup_fst_map_to_list.
+    - intros [[t' h'] bh']. rewrite elem_of_mined_keys. simpl. split.
+      + intros [-> Hc']. congruence.
+      + intros [= -> -> ->]. done.
+  Qed.
+
+  Lemma mined_keys_none t : f_conf F !! t = None → mined_keys_of t s = [].
+  Proof.
+    intros Hc. apply elem_of_nil_inv. intros k Hk. apply elem_of_mined_keys in Hk as [_ Hk]. congruence.
+  Qed.
+
+  Lemma details_main t :
+    tx_details U s t = spec_details U F t ∧
+    unique_tx_details U s t (f_conf F !! t) = spec_details U F t.
+  Proof.
+    destruct (f_conf F !! t) as [[h bh]|] eqn:Hc.
+    - destruct (known_in_universe t) as (x & Hx & _); [left; by eexists|].
+      assert (unmined s !! t = None) as Hm.
+      { destruct (unmined s !! t) as [v|] eqn:Hm; [|done]. exfalso.
+        eapply conf_not_unconf; [done|]. apply (inv_unmined U s F HI). by eexists. }
+      rewrite (spec_details_known t x); [|apply known_true; left; by eexists|done].
+      split.
+      + unfold tx_details. rewrite Hm, (mined_keys_conf _ _ _ Hc).
+        transitivity (Some (mined_details U s (t, h, bh))); [done|].
+        by rewrite (mined_details_eq t x h bh).
+      + unfold unique_tx_details.
+        destruct (proj2 (inv_txrecs U s F HI t h bh) Hc) as [[] Hr]. rewrite Hr.
+        by rewrite (mined_details_eq t x h bh).
+    - destruct (decide (t ∈ f_unconf F)) as [Hu|Hu].
+      + destruct (known_in_universe t) as (x & Hx & _); [by right|].
+        destruct (proj2 (inv_unmined U s F HI t) Hu) as [[] Hm].
+        rewrite (spec_details_known t x); [|apply known_true; by right|done].
+        unfold tx_details, unique_tx_details. rewrite Hm.
+        by rewrite (unmined_details_eq t x).
+      + assert (unmined s !! t = None) as Hm.
+        { destruct (unmined s !! t) as [v|] eqn:Hm; [|done]. exfalso.
+          apply Hu, (inv_unmined U s F HI). by eexists. }
+        rewrite spec_details_unknown.
+        2:{ apply not_true_iff_false. rewrite known_true. intros [[b Hb]|Hk]; [congruence|done]. }
+        unfold tx_details, unique_tx_details. rewrite Hm, (mined_keys_none _ Hc). done.
+  Qed.
 End obs.
 
 Lemma utxos_correct : utxos_statement.
@@ -942,4 +1202,11 @@ Proof.
   erewrite balance_as_utxo_sum by done.
   erewrite spec_balance_as_utxo_sum by done.
   apply sumZ_perm. apply omap_Permutation. by apply utxos_correct.
+Qed.
+
+Lemma details_correct : details_statement.
+Proof.
+  intros U s F t Hwf HI.
+  destruct (details_main U s F Hwf HI t) as [H1 H2].
+  split_and!; [done|done|]. by eapply unmined_hashes_perm.
 Qed.
